@@ -412,11 +412,17 @@ def _ctor(case):
     nontriv = []
     for nt in range(5):
         for nv in range(5):
-            for how in ("array", "list"):
+            for how in ("array", "list", "int-times array", "int-times list", "int-values array"):
                 times = [k * DT for k in range(nt)]
                 vals = [float(k + 1) for k in range(nv)]
-                ta = np.array(times) if how == "array" else list(times)
-                va = np.array(vals) if how == "array" else list(vals)
+                if how.startswith("int-times"):
+                    # an integer-typed time grid (np.arange(n)) with non-integral values: the values keep their own type
+                    times = [k for k in range(nt)]
+                    vals = [k + 0.5 if k % 2 else -(k + 0.25) for k in range(nv)]
+                ta = np.array(times) if how.endswith("array") else list(times)
+                va = np.array(vals) if how.endswith("array") else list(vals)
+                if how == "int-values array":
+                    va = np.array([k + 1 for k in range(nv)], dtype=np.int64)
                 n += 1
                 try:
                     s = Signal(ta, va)
@@ -426,9 +432,9 @@ def _ctor(case):
                     continue
                 exp = (vals + [0.0] * nt)[:nt]
                 if list(s.times) != times or list(s.values) != exp:
-                    fails.append({"check": "ctor-align", "what": "Signal(%d times, %d values): values %s expected %s"
-                                  % (nt, nv, list(s.values), exp), "tags": {"nt": nt, "nv": nv}})
-                if how == "array" and ((nt and np.shares_memory(s.times, ta)) or
+                    fails.append({"check": "ctor-align", "what": "Signal(%d times, %d values as %s): values %s expected %s"
+                                  % (nt, nv, how, list(s.values), exp), "tags": {"nt": nt, "nv": nv}})
+                if how.endswith("array") and ((nt and np.shares_memory(s.times, ta)) or
                                        (nt and nv and np.shares_memory(s.values, va))):
                     fails.append({"check": "ctor-alias", "what": "Signal(%d,%d) shares memory with its arguments" % (nt, nv),
                                   "tags": {"nt": nt, "nv": nv}})
